@@ -100,9 +100,34 @@ def check_legs(ctx, sc):
     ctx.oracle_evals += 3
 
 
+def check_collect_kernel(ctx, case):
+    """Receiver kernel: the total of every (patch, band) row is the input total x exp(-m_b d_i)
+    (the delay is a permutation of bins in the code as it is, so sums are preserved)."""
+    out = kernels.impl_collect(case)
+    ctx.oracle_evals += 1
+    for i in range(case['P']):
+        for b in range(case['B']):
+            ref = case['E'][i, b].sum() * np.exp(-case['att'][b] * case['dist'][i])
+            n = int(np.ceil(case['dist'][i] / case['c'] / case['dt']))
+            got = out[i, b].sum()
+            if abs(got - ref) > 1e-12 * max(abs(ref), 1e-300):
+                # a truncating (repaired) kernel may drop the tail: accept the truncated total too
+                S = case['S']
+                ref2 = (case['E'][i, b][:max(S - n, 0)].sum()) * np.exp(-case['att'][b] * case['dist'][i])
+                if abs(got - ref2) <= 1e-12 * max(abs(ref2), 1e-300):
+                    continue
+                ctx.violation('receiver-leg-attenuation',
+                              'receiver kernel: patch %d (distance %.3f m), band %d (m=%.4f): energy is not the input x exp(-m d)' % (i, case['dist'][i], b, case['att'][b]),
+                              {k: case[k] for k in ('P', 'B', 'S', 'c', 'dt', 'dist', 'att', 'E')}, float(got), float(ref))
+                return
+
+
 def run(ctx):
     n_k = 30 if ctx.tier == 'quick' else 800
-    kernels.corr_collect(ctx, [kernels.gen_collect_case(ctx.rng) for _ in range(n_k)])
+    ccases = [kernels.gen_collect_case(ctx.rng) for _ in range(n_k)]
+    kernels.corr_collect(ctx, ccases)
+    for case in ccases:
+        check_collect_kernel(ctx, case)
     corr_direct(ctx, 6 if ctx.tier == 'quick' else 60)
     n_s = 3 if ctx.tier == 'quick' else 24
     for k in range(n_s):
@@ -116,10 +141,16 @@ def run(ctx):
 def oracle(ctx, budget_s=60):
     t = common.Timer()
     while t.s() < budget_s and not ctx.violations:
+        for _ in range(20):
+            check_collect_kernel(ctx, kernels.gen_collect_case(ctx.rng))
         sc = energy.gen_scene(ctx.rng, small=True, att_zero=False)
         check_legs(ctx, sc)
 
 
 def replay(ctx, rp):
+    if 'E' in rp['input']:
+        case = {k: (np.array(v) if isinstance(v, list) else v) for k, v in rp['input'].items()}
+        check_collect_kernel(ctx, case)
+        return not ctx.violations
     check_legs(ctx, c03._scene_from_json(rp['input']))
     return not ctx.violations
